@@ -60,9 +60,10 @@ def _e2_plan(prop, tier):
     return {
         "rule": E2_RULE,
         "batches": [
-            {"engine": "e2_history", "label": "sweep", "n": 128, "indexed": True, "kwargs": {"sweep": True}, "timeout": 900.0},
-            {"engine": "e2_history", "label": "hist", "n": 400 if q else 20000, "timeout": 600.0},
-            {"engine": "e2_history", "label": "hist-faults", "n": 200 if q else 10000, "kwargs": {"faults": True}, "timeout": 600.0},
+            {"engine": "e2_history", "label": "sweep", "n": 192, "indexed": True, "kwargs": {"sweep": True}, "timeout": 900.0},
+            {"engine": "e2_history", "label": "hist", "n": 260 if q else 20000, "timeout": 600.0},
+            {"engine": "e2_history", "label": "hist-faults", "n": 120 if q else 10000, "kwargs": {"faults": True}, "timeout": 600.0},
+            {"engine": "e2_history", "label": "hist-generated", "n": 80 if q else 5000, "kwargs": {"generated": True}, "timeout": 600.0},
         ],
         "probes": ["parse.hits", "template.hits", "group.hits", "judged_op_hit_entry_touched_before", "fault.abort_fired", "op.LAZY_STEP"],
         "assumptions": [
